@@ -42,15 +42,6 @@ Proof.
   apply sget_sdel_other; exact Hne.
 Qed.
 
-Lemma has_descendant_false s p : has_descendant s p = false ->
-  forall q k, strict_prefix p q = true -> sget s q k = None.
-Proof.
-  intros H q k Hq. induction s as [|e s IH]; cbn in *; [reflexivity|].
-  apply orb_false_iff in H as [H1 H2].
-  destruct (key_eqb q k e) eqn:E; [|apply IH; exact H2].
-  apply key_eqb_true in E. destruct e as [[p' k'] v]; cbn in *. inversion E; subst. congruence.
-Qed.
-
 (* ---- node-level facts *)
 Lemma add_arc_children k id n : children (fst (add_arc_interface k id n)) = children n.
 Proof. destruct n as [p ch ifs]; cbn. destruct (find_iface k ifs); reflexivity. Qed.
@@ -101,26 +92,26 @@ Proof.
   - destruct (iface_eqb k k'); [eexists; reflexivity | apply IH; exact H].
 Qed.
 
-(* Node::is_empty: no key outside the four standard names *)
-Lemma is_empty_spec n : is_empty n = true <-> forall k, is_std k = false -> find_iface k (ifaces n) = None.
+(* Node::is_empty (since fix 71f8bd70): no key outside the three names Node::new registers *)
+Lemma is_empty_spec n : is_empty n = true <-> forall k, std3 k = false -> find_iface k (ifaces n) = None.
 Proof.
   unfold is_empty. rewrite negb_true_iff. split.
   - intros H k Hk. destruct (find_iface k (ifaces n)) eqn:E; [|reflexivity].
     apply find_iface_in in E.
-    assert (existsb (fun e => negb (is_std (fst e))) (ifaces n) = true).
+    assert (existsb (fun e => negb (std3 (fst e))) (ifaces n) = true).
     { apply existsb_exists. exists (k, n0). split; [exact E | cbn; rewrite Hk; reflexivity]. }
     congruence.
-  - intros H. destruct (existsb (fun e => negb (is_std (fst e))) (ifaces n)) eqn:E; [|reflexivity].
+  - intros H. destruct (existsb (fun e => negb (std3 (fst e))) (ifaces n)) eqn:E; [|reflexivity].
     apply existsb_exists in E as [[k v] [Hin Hk]]. cbn in Hk. apply negb_true_iff in Hk.
     destruct (in_find_iface _ _ _ Hin) as [v' Hv]. rewrite (H k Hk) in Hv. discriminate.
 Qed.
 
-Lemma is_std_ik k : is_std (ik k) = match k with KM => true | _ => false end.
-Proof. destruct k; reflexivity. Qed.
-
-(* every non-standard name is one of the three user kinds *)
-Lemma non_std_is_user k : is_std k = false -> k = ik K1 \/ k = ik K2 \/ k = ik K3.
-Proof. destruct k; cbn; intros H; try discriminate; auto. Qed.
+(* every name outside those three is the name of one of the four kinds of a history *)
+Lemma non_std3_is_kind k : std3 k = false -> exists kk, k = ik kk.
+Proof.
+  destruct k; cbn; intros H; try discriminate;
+    [exists K1 | exists K2 | exists K3 | exists KM]; reflexivity.
+Qed.
 
 (* ---- with_node with creation always finds (or makes) the node *)
 Lemma with_node_create {R} (f : node -> option path -> node * R) : forall p n np mgr,
@@ -376,17 +367,6 @@ Proof.
     apply prefix_app in Epq as [r ->]. unfold ulookup. rewrite !get_child_app, Hget, Hc. reflexivity.
 Qed.
 
-Lemma emptied_spec s p : emptied s p = true <-> forall k, is_std (ik k) = false -> sget s p k = None.
-Proof.
-  unfold emptied, user_kinds; cbn. split.
-  - intros H k Hk.
-    destruct (sget s p K1) eqn:E1; [discriminate|].
-    destruct (sget s p K2) eqn:E2; [discriminate|].
-    destruct (sget s p K3) eqn:E3; [discriminate|].
-    destruct k; try assumption. discriminate.
-  - intros H. rewrite (H K1), (H K2), (H K3) by reflexivity. reflexivity.
-Qed.
-
 Lemma bare_spec s p : bare s p = true <-> forall k, sget s p k = None.
 Proof.
   unfold bare, all_kinds; cbn. split.
@@ -399,37 +379,22 @@ Proof.
   - intros H. rewrite (H K1), (H K2), (H K3), (H KM). reflexivity.
 Qed.
 
-Lemma in_sget s : forall e, In e s -> exists v, sget s (fst (fst e)) (snd (fst e)) = Some v.
-Proof.
-  induction s as [|e0 s IH]; intros e He; [destruct He|]. cbn [sget].
-  destruct (key_eqb (fst (fst e)) (snd (fst e)) e0) eqn:E; [eexists; reflexivity|].
-  destruct He as [-> | He]; [|apply IH; exact He].
-  destruct e as [[q k] v]. cbn in E. rewrite key_eqb_refl in E. discriminate.
-Qed.
-
-Lemma has_descendant_true s p : has_descendant s p = true ->
-  exists q k v, strict_prefix p q = true /\ sget s q k = Some v.
-Proof.
-  unfold has_descendant. intros H. apply existsb_exists in H as [e [He Hp]].
-  destruct (in_sget s e He) as [v Hv]. exists (fst (fst e)), (snd (fst e)), v. split; assumption.
-Qed.
-
 Lemma has_children_false_leaf n q : has_children n = false -> q <> [] -> get_child n q = None.
 Proof.
   unfold has_children. intros H Hq. apply get_child_leaf; [|exact Hq]. destruct (children n); [reflexivity | discriminate].
 Qed.
 
 Lemma remove_refines t s p k :
-  Inv t s -> flag24 s (Rm p k) = None ->
+  Inv t s ->
   Inv (fst (fst (remove t p (ik k)))) (fst (spec_step s (Rm p k))) /\
   res_prop (Rm p k) (snd (fst (remove t p (ik k)))) = snd (spec_step s (Rm p k)) /\
   (* beyond the property: a node reported destroyed had nothing left registered at p *)
   (snd (fst (remove t p (ik k))) = Ok true -> bare (sdel s p k) p = true).
 Proof.
-  intros HI Hflag.
+  intros HI.
   pose proof (remove_state t p (ik k)) as Hst.
   pose proof (HI p k) as Hpk. unfold ulookup in Hpk.
-  cbn [spec_step]. cbn [flag24] in Hflag.
+  cbn [spec_step].
   destruct (get_child t p) as [c|] eqn:Hc.
   2:{ rewrite <- Hpk. destruct (remove t p (ik k)) as [[t' r] sg]. cbn in Hst. inversion Hst; subst.
       cbn. split; [exact HI|]. split; [reflexivity | discriminate]. }
@@ -457,86 +422,60 @@ Proof.
     - rewrite Hframe; [| exact Epq | apply ik_not_std3].
       rewrite sget_sdel_other; [apply HI|].
       intros H; inversion H; subst. rewrite prefix_refl in Epq. discriminate. }
-  (* is_empty of the node agrees with `emptied` of the flat map *)
-  assert (Hem : is_empty (fst (remove_interface (ik k) c)) = emptied (sdel s p k) p).
-  { destruct (emptied (sdel s p k) p) eqn:E.
-    - apply is_empty_spec. intros k' Hk'. rewrite emptied_spec in E.
-      destruct (non_std_is_user k' Hk') as [-> | [-> | ->]];
-        (specialize (HI' p); unfold ulookup in HI'; rewrite Hget in HI'; rewrite HI'; apply E; reflexivity).
+  (* is_empty of the node = nothing at all registered at p in the flat map *)
+  assert (Hem : is_empty (fst (remove_interface (ik k) c)) = bare (sdel s p k) p).
+  { destruct (bare (sdel s p k) p) eqn:E.
+    - apply is_empty_spec. intros k' Hk'. rewrite bare_spec in E.
+      destruct (non_std3_is_kind k' Hk') as [kk ->].
+      specialize (HI' p kk). unfold ulookup in HI'. rewrite Hget in HI'. rewrite HI'. apply E.
     - destruct (is_empty (fst (remove_interface (ik k) c))) eqn:E2; [|reflexivity].
       rewrite is_empty_spec in E2. exfalso.
-      assert (emptied (sdel s p k) p = true); [|congruence].
-      apply emptied_spec. intros k' Hk'. rewrite <- HI'. unfold ulookup. rewrite Hget. apply E2. exact Hk'. }
+      assert (bare (sdel s p k) p = true); [|congruence].
+      apply bare_spec. intros k'. rewrite <- HI'. unfold ulookup. rewrite Hget. apply E2. apply ik_not_std3. }
   unfold destroyable in Hrest. rewrite Hem in Hrest.
-  destruct (emptied (sdel s p k) p && negb (has_children (fst (remove_interface (ik k) c)))) eqn:Ed.
-  - apply andb_true_iff in Ed as [Eem Ech]. apply negb_true_iff in Ech.
+  destruct (bare (sdel s p k) p && negb (has_children (fst (remove_interface (ik k) c)))) eqn:Ed.
+  - apply andb_true_iff in Ed as [Ebare Ech]. apply negb_true_iff in Ech.
     destruct p as [|x p0].
     + (* the root is never destroyed *)
       destruct (remove t [] (ik k)) as [[t' r] sg]. cbn in Hrest. inversion Hrest; subst t' r. cbn [fst snd res_obs res_prop].
       split; [exact HI'|]. split; [reflexivity | discriminate].
-    + (* a leaf is destroyed: nothing is registered below it; not flagged: no manager at it *)
-      assert (Ehd : has_descendant (sdel s (x :: p0) k) (x :: p0) = false).
-      { destruct (has_descendant (sdel s (x :: p0) k) (x :: p0)) eqn:E; [|reflexivity]. exfalso.
-        destruct (has_descendant_true _ _ E) as [q [k0 [v0 [Hq Hv]]]].
-        apply strict_prefix_app in Hq as [r [Hr ->]].
-        rewrite <- HI' in Hv. unfold ulookup in Hv. rewrite get_child_app, Hget in Hv.
-        rewrite (has_children_false_leaf _ r Ech Hr) in Hv. discriminate. }
-      rewrite Eem, Ehd in Hflag.
-      destruct (sget (sdel s (x :: p0) k) (x :: p0) KM) eqn:Ekm; [discriminate|].
+    + (* a leaf with nothing registered at it is destroyed: nothing was registered below it either *)
       destruct Hrest as [root'' [Hres Hdrop]].
       destruct (remove t (x :: p0) (ik k)) as [[t' r] sg]. cbn in Hres. inversion Hres; subst t' r. cbn [fst snd res_obs res_prop].
-      assert (Hbare : forall k', sget (sdel s (x :: p0) k) (x :: p0) k' = None).
-      { intros k'. rewrite emptied_spec in Eem. destruct k'; try (apply Eem; reflexivity). exact Ekm. }
       split.
       * intros q k'. rewrite Hdrop by apply ik_not_std3.
         destruct (prefix (x :: p0) q) eqn:Epq; [|apply HI'].
         apply prefix_app in Epq as [r ->]. destruct r as [|y r].
-        -- rewrite app_nil_r. symmetry. apply Hbare.
-        -- symmetry. apply (has_descendant_false _ _ Ehd). apply strict_prefix_app_true. discriminate.
-      * split; [reflexivity|]. intros _. apply bare_spec. exact Hbare.
+        -- rewrite app_nil_r. symmetry. rewrite bare_spec in Ebare. apply Ebare.
+        -- rewrite <- HI'. unfold ulookup. rewrite get_child_app, Hget.
+           rewrite (has_children_false_leaf _ (y :: r) Ech); [reflexivity | discriminate].
+      * split; [reflexivity|]. intros _. exact Ebare.
   - destruct (remove t p (ik k)) as [[t' r] sg]. cbn in Hrest. inversion Hrest; subst t' r. cbn [fst snd res_obs res_prop].
     split; [exact HI'|]. split; [reflexivity | discriminate].
 Qed.
 
 (* ---- histories *)
 Lemma step_refines t s o :
-  Inv t s -> flag24 s o = None ->
+  Inv t s ->
   Inv (fst (fst (mstep t o))) (fst (spec_step s o)) /\
   res_prop o (snd (fst (mstep t o))) = snd (spec_step s o).
 Proof.
-  intros HI Hf. destruct o as [p k id | p k]; cbn [mstep].
+  intros HI. destruct o as [p k id | p k]; cbn [mstep].
   - apply at_refines; exact HI.
-  - destruct (remove_refines t s p k HI Hf) as [H1 [H2 _]]. split; assumption.
+  - destruct (remove_refines t s p k HI) as [H1 [H2 _]]. split; assumption.
 Qed.
 
 Lemma run_refines : forall h t s,
-  Inv t s -> first_flag s h = None ->
+  Inv t s ->
   Inv (fst (mrun t h)) (fst (spec_run s h)) /\ snd (mrun t h) = snd (spec_run s h).
 Proof.
-  induction h as [|o h IH]; intros t s HI Hf; cbn [mrun spec_run].
+  induction h as [|o h IH]; intros t s HI; cbn [mrun spec_run].
   - split; [exact HI | reflexivity].
-  - cbn [first_flag] in Hf. destruct (flag24 s o) eqn:Ef; [discriminate|].
-    destruct (step_refines t s o HI Ef) as [HI1 Hr1].
+  - destruct (step_refines t s o HI) as [HI1 Hr1].
     destruct (mstep t o) as [[t1 x] sg]. destruct (spec_step s o) as [s1 y]. cbn [fst snd] in *.
-    destruct (IH t1 s1 HI1 Hf) as [HI2 Hr2].
+    destruct (IH t1 s1 HI1) as [HI2 Hr2].
     destruct (mrun t1 h) as [t2 xs]. destruct (spec_run s1 h) as [s2 ys]. cbn [fst snd] in *.
     split; [exact HI2 | congruence].
-Qed.
-
-Lemma first_flag_app : forall pre post s, first_flag s (pre ++ post) = None -> first_flag s pre = None.
-Proof.
-  induction pre as [|o pre IH]; intros post s H; cbn in *; [reflexivity|].
-  destruct (flag24 s o); [discriminate|]. eapply IH; exact H.
-Qed.
-
-Lemma first_flag_mid : forall pre o post s, first_flag s (pre ++ o :: post) = None ->
-  first_flag s pre = None /\ flag24 (fst (spec_run s pre)) o = None.
-Proof.
-  induction pre as [|o' pre IH]; intros o post s H; cbn [app first_flag spec_run] in *.
-  - split; [reflexivity|]. cbn. destruct (flag24 s o); [discriminate | reflexivity].
-  - destruct (flag24 s o'); [discriminate|].
-    destruct (IH o post _ H) as [H1 H2]. split; [exact H1|].
-    destruct (spec_step s o') as [s1 y]. cbn [fst] in *. destruct (spec_run s1 pre) as [s2 ys]. exact H2.
 Qed.
 
 (* the flat map never panics *)
@@ -560,7 +499,7 @@ Proof. unfold seen_at, introspect, ulookup. destruct (get_child t p); reflexivit
 Lemma seen_nested_ulookup t p k : seen_nested t p k = is_some (ulookup t p k).
 Proof. unfold seen_nested, introspect, ulookup. cbn. destruct (get_child t p); reflexivity. Qed.
 
-(* ---- the full statement, the partial theorem, the refutations *)
+(* ---- the theorem, at full strength *)
 (* after a history: every (path, interface) pair is looked up, called and introspected exactly as
    the flat map says; the results of all operations are those of the flat map; nothing panicked *)
 Definition agrees (h : list op) : Prop :=
@@ -571,15 +510,9 @@ Definition agrees (h : list op) : Prop :=
   model_results h = spec_results h /\
   ~ In RPanic (model_results h).
 
-Definition C24_full_statement : Prop := forall h pre post, h = pre ++ post -> agrees pre.
-
-Theorem refines_partial : forall h, ~ Known_C24 h -> forall pre post, h = pre ++ post -> agrees pre.
+Theorem refines : forall h, agrees h.
 Proof.
-  intros h Hk pre post ->.
-  assert (Hf : first_flag [] pre = None).
-  { apply (first_flag_app pre post). unfold Known_C24 in Hk.
-    destruct (first_flag [] (pre ++ post)); [exfalso; apply Hk; discriminate | reflexivity]. }
-  destruct (run_refines pre root0 [] Inv_init Hf) as [HI Hr].
+  intros h. destruct (run_refines h root0 [] Inv_init) as [HI Hr].
   unfold agrees, model_state, spec_state, model_results, spec_results.
   repeat split.
   - intros p k. rewrite lookup_ulookup. apply HI.
@@ -590,54 +523,43 @@ Proof.
   - rewrite Hr. apply spec_no_panic.
 Qed.
 
-(* beyond the property text: outside the known classes a removal that reports the object destroyed
-   left nothing at all registered at the path *)
-Theorem remove_flag_partial : forall h, ~ Known_C24 h -> forall pre p k post, h = pre ++ Rm p k :: post ->
-  snd (fst (remove (model_state pre) p (ik k))) = Ok true -> bare (sdel (spec_state pre) p k) p = true.
+(* beyond the property text: a removal that reports the object destroyed left nothing at all
+   registered at the path *)
+Theorem remove_flag : forall h p k,
+  snd (fst (remove (model_state h) p (ik k))) = Ok true -> bare (sdel (spec_state h) p k) p = true.
 Proof.
-  intros h Hk pre p k post -> Hb.
-  assert (Hf : first_flag [] (pre ++ Rm p k :: post) = None).
-  { unfold Known_C24 in Hk. destruct (first_flag [] (pre ++ Rm p k :: post)); [exfalso; apply Hk; discriminate | reflexivity]. }
-  destruct (first_flag_mid _ _ _ _ Hf) as [Hpre Hstep].
-  destruct (run_refines pre root0 [] Inv_init Hpre) as [HI _].
-  destruct (remove_refines _ _ p k HI Hstep) as [_ [_ Hflag]]. apply Hflag. exact Hb.
+  intros h p k Hb. destruct (run_refines h root0 [] Inv_init) as [HI _].
+  destruct (remove_refines _ _ p k HI) as [_ [_ Hflag]]. apply Hflag. exact Hb.
 Qed.
 
+(* ---- examples *)
 Definition sa : seg := B "a".
 Definition sb : seg := B "b".
 
-Definition h_manager : list op := [At [sa] K1 1; At [sa] KM 2; Rm [sa] K1].
-
-Lemma manager_refuted :
-  sget (spec_state h_manager) [sa] KM = Some 2%N /\
-  ok_opt (lookup (model_state h_manager) [sa] (ik KM)) = None /\
-  ok_opt (call (model_state h_manager) [sa] (ik KM)) = None /\
-  seen_at (model_state h_manager) [sa] (ik KM) = false /\
-  first_flag [] h_manager = Some ManagerDropped.
-Proof. repeat split; vm_compute; reflexivity. Qed.
-
-Lemma full_statement_false : ~ C24_full_statement.
-Proof.
-  intros H. specialize (H h_manager h_manager [] (eq_sym (app_nil_r _))).
-  destruct H as [Hl _]. specialize (Hl [sa] KM). vm_compute in Hl. discriminate.
-Qed.
-
-(* the two histories that used to break the server (fix f5fe3276) are now ordinary histories *)
+(* the three histories that used to break the server are ordinary histories now
+   (fixes f5fe3276 and 71f8bd70): no panic at "/", I2 stays at /a/b, the manager stays at /a *)
 Definition h_root : list op := [At [] K1 1; Rm [] K1].
 Definition h_subtree : list op := [At [sa] K1 1; At [sa; sb] K2 2; Rm [sa] K1].
-Lemma repaired_ok : ~ Known_C24 h_root /\ ~ Known_C24 h_subtree /\
-  model_results h_root = [RBool true; RDone] /\
-  ok_opt (lookup (model_state h_subtree) [sa; sb] (ik K2)) = Some 2%N.
-Proof. repeat split; try (intros H; apply H; vm_compute; reflexivity); vm_compute; reflexivity. Qed.
+Definition h_manager : list op := [At [sa] K1 1; At [sa] KM 2; Rm [sa] K1].
 
-(* non-vacuity: a history outside the known classes that registers, nests, refuses a duplicate,
-   fails a removal, removes a leaf, adds and removes a manager, and removes at the root while
-   another interface stays there *)
+Lemma repaired_ok :
+  model_results h_root = [RBool true; RDone] /\
+  ok_opt (lookup (model_state h_subtree) [sa; sb] (ik K2)) = Some 2%N /\
+  ok_opt (lookup (model_state h_manager) [sa] (ik KM)) = Some 2%N /\
+  ok_opt (call (model_state h_manager) [sa] (ik KM)) = Some 2%N /\
+  seen_at (model_state h_manager) [sa] (ik KM) = true /\
+  snd (fst (remove (model_state h_manager) [sa] (ik KM))) = Ok true.
+Proof. repeat split; vm_compute; reflexivity. Qed.
+
+(* a history that registers, nests, refuses a duplicate, fails a removal, removes a leaf, adds and
+   removes a manager, and removes at the root while another interface stays there *)
 Definition h_clean : list op :=
   [At [sa] K1 1; At [sa; sb] K2 2; At [sa] K1 3; Rm [sa; sb] K3; Rm [sa; sb] K2; At [] K3 6; At [] K1 7;
    Rm [] K3; At [sa] KM 9; Rm [sa] KM; At [sa; sb] K1 11; Rm [sa; sb] K1].
 
-Lemma h_clean_ok : ~ Known_C24 h_clean /\
-  spec_results h_clean = [RBool true; RBool true; RBool false; RErr; RDone; RBool true; RBool true;
-                          RDone; RBool true; RDone; RBool true; RDone].
-Proof. split; [intros H; apply H; vm_compute; reflexivity | vm_compute; reflexivity]. Qed.
+Lemma h_clean_ok :
+  model_results h_clean = [RBool true; RBool true; RBool false; RErr; RDone; RBool true; RBool true;
+                           RDone; RBool true; RDone; RBool true; RDone] /\
+  sget (spec_state h_clean) [sa] K1 = Some 1%N /\ sget (spec_state h_clean) [] K1 = Some 7%N /\
+  sget (spec_state h_clean) [sa; sb] K1 = None.
+Proof. repeat split; vm_compute; reflexivity. Qed.
